@@ -334,3 +334,35 @@ Proof.
     + subst k0. destruct (String.eqb_spec k' k); [congruence|reflexivity].
     + rewrite IH. reflexivity.
 Qed.
+
+(* ---------- filter objects carry nothing from one job to the next ---------- *)
+Lemma chain_call_stateless sts : forall step job ts,
+  map f_rules (fst (chain_call sts step job ts)) = map f_rules sts /\
+  snd (chain_call sts step job ts) = chain (map f_rules sts) job ts.
+Proof.
+  induction sts as [|st sts IH]; intros step job ts; [split; reflexivity|].
+  cbn [chain_call filter_call map chain].
+  destruct (get_targets (f_rules st) job ts) as [l|e]; [|split; reflexivity].
+  destruct (IH step job l) as [H1 H2].
+  destruct (chain_call sts step job l) as [sts'' r'] eqn:E. cbn [fst snd] in *.
+  split; [cbn [map f_rules]; rewrite H1; reflexivity|exact H2].
+Qed.
+
+Theorem run_calls_stateless cs : forall sts,
+  run_calls sts cs = map (fun c => chain (map f_rules sts) (c_inputs c) (c_ts c)) cs.
+Proof.
+  induction cs as [|c cs IH]; intros sts; [reflexivity|].
+  cbn [run_calls map].
+  destruct (chain_call_stateless sts (c_step c) (c_inputs c) (c_ts c)) as [H1 H2].
+  destruct (chain_call sts (c_step c) (c_inputs c) (c_ts c)) as [sts' r]. cbn [fst snd] in *.
+  rewrite IH, H1, H2. reflexivity.
+Qed.
+
+(* hence every job of a sequence is judged on its own: survivors of all filters, in its binding's order *)
+Theorem run_calls_each cs sts k c l :
+  nth_error cs k = Some c -> nth_error (run_calls sts cs) k = Some (Ok l) ->
+  l = filter (survives (map f_rules sts) (c_inputs c)) (c_ts c).
+Proof.
+  intros Hc Hr. rewrite run_calls_stateless in Hr.
+  rewrite nth_error_map, Hc in Hr. simpl in Hr. injection Hr as Hr. apply chain_ok in Hr. exact Hr.
+Qed.
